@@ -614,11 +614,6 @@ theorem foldl_merge_xaddrs (rest : List Service) (h : Service) :
 
 /-! ### duplicate filter in front of the dispatcher -/
 
-/-- a list of datagrams processed one after the other -/
-def recvAll (chk : Bytes → Bool) (r : Rules) (maxlen : Nat) (n : Node) : List (String × Msg) → Node
-  | [] => n
-  | d :: ds => recvAll chk r maxlen (recvDatagram chk r maxlen n d.1 d.2).1 ds
-
 theorem recvDatagram_known (chk : Bytes → Bool) (r : Rules) (maxlen : Nat) (n : Node) (mid : String) (m : Msg) :
     (recvDatagram chk r maxlen n mid m).1.known = (UdpRepeat.step maxlen n.known (.recv mid)).1 := by
   unfold recvDatagram
@@ -627,13 +622,24 @@ theorem recvDatagram_known (chk : Bytes → Bool) (r : Rules) (maxlen : Nat) (n 
   · split <;> rfl
   · rfl
 
-theorem recvAll_known (chk : Bytes → Bool) (r : Rules) (maxlen : Nat) (n : Node) (ds : List (String × Msg)) :
-    (recvAll chk r maxlen n ds).known = UdpRepeat.run maxlen n.known (ds.map fun d => .recv d.1) := by
-  induction ds generalizing n with
+/-- the id-window view of a node event -/
+def NodeEv.toEv : NodeEv → UdpRepeat.Ev
+  | .dg mid _ => .recv mid
+  | .own id => .out id
+
+theorem nodeStep_known (chk : Bytes → Bool) (r : Rules) (maxlen : Nat) (n : Node) (e : NodeEv) :
+    (nodeStep chk r maxlen n e).known = (UdpRepeat.step maxlen n.known e.toEv).1 := by
+  cases e with
+  | dg mid m => exact recvDatagram_known chk r maxlen n mid m
+  | own id => rfl
+
+theorem runNode_known (chk : Bytes → Bool) (r : Rules) (maxlen : Nat) (n : Node) (es : List NodeEv) :
+    (runNode chk r maxlen n es).known = UdpRepeat.run maxlen n.known (es.map NodeEv.toEv) := by
+  induction es generalizing n with
   | nil => rfl
-  | cons d ds ih =>
-    simp only [recvAll, List.map_cons, UdpRepeat.run]
-    rw [ih, recvDatagram_known]
+  | cons e es ih =>
+    simp only [runNode, List.map_cons, UdpRepeat.run]
+    rw [ih, nodeStep_known]
 
 theorem recvDatagram_of_known (chk : Bytes → Bool) (r : Rules) (maxlen : Nat) (n : Node) (mid : String) (m : Msg)
     (h : mid ∈ n.known) : recvDatagram chk r maxlen n mid m = (n, none) := by
